@@ -18,7 +18,7 @@ VERIF = os.path.dirname(os.path.dirname(os.path.abspath(__file__)))
 DRIVER = os.path.join(VERIF, 'driver', 'instantiate.cpp')
 CACHE = os.path.join(VERIF, '.cache')
 MPI_INC = '/usr/lib/x86_64-linux-gnu/openmpi/include'
-CACHE_VERSION = 11
+CACHE_VERSION = 13
 
 
 class AnalysisBroken(Exception):
@@ -354,9 +354,10 @@ FUNC_KINDS = ('FunctionDecl', 'CXXMethodDecl', 'CXXConstructorDecl', 'CXXDestruc
 
 
 class Builder:
-    def __init__(self, prog):
+    def __init__(self, prog, accept_all=False):
         self.p = prog
         self.numeric = prog.numeric
+        self.accept_all = accept_all
 
     def build(self, objs):
         # pass 1: collect declarations
@@ -428,6 +429,9 @@ class Builder:
         file = loc[0] if loc else None
         in_repo = bool(file) and file.startswith(os.path.join(self.p.repo, 'include'))
         in_driver = bool(file) and file == DRIVER
+        if self.accept_all:
+            self.decl(o, 'std', pattern=False)
+            return
         if not (in_repo or in_driver):
             # e.g. std::hash<...> specialisations matching the filter by substring
             if kind not in ('ClassTemplateSpecializationDecl',):
@@ -637,6 +641,35 @@ def load(repo='/repo', numeric='double', engine='std::mt19937', use_cache=True):
                       if f.startswith('prog-'))
         for _, f in olds[:-40]:
             os.unlink(os.path.join(CACHE, f))
+        with open(cp + '.tmp%d' % os.getpid(), 'wb') as fh:
+            pickle.dump(prog, fh, protocol=pickle.HIGHEST_PROTOCOL)
+        os.replace(cp + '.tmp%d' % os.getpid(), cp)
+    except Exception:
+        pass
+    return prog
+
+
+def load_aux(repo, filt, numeric='double', engine='std::mt19937'):
+    """Auxiliary dump of library entities (e.g. the installed std::generate_canonical) from the
+    same driver TU; a separate Program whose declaration ids are NOT comparable with load()'s."""
+    repo = os.path.abspath(repo)
+    key = tree_hash(repo, 'aux|' + filt + '|' + numeric + '|' + engine)
+    cp = os.path.join(CACHE, 'aux-%s.pkl' % key)
+    if os.path.exists(cp):
+        try:
+            with open(cp, 'rb') as fh:
+                return pickle.load(fh)
+        except Exception:
+            pass
+    text = run_clang(repo, numeric, engine, filt=filt)
+    objs = parse_concatenated(text)
+    lt = LocTracker()
+    for o in objs:
+        lt.annotate(o)
+    prog = Program(repo, numeric, engine)
+    sys.setrecursionlimit(20000)
+    Builder(prog, accept_all=True).build(objs)
+    try:
         with open(cp + '.tmp%d' % os.getpid(), 'wb') as fh:
             pickle.dump(prog, fh, protocol=pickle.HIGHEST_PROTOCOL)
         os.replace(cp + '.tmp%d' % os.getpid(), cp)
